@@ -9,7 +9,7 @@ from gen_programs import Gen, Scope
 
 PID = "C02"
 MANIFEST = {
-    "text": "20 Coq theorems.  'No effect on values' at full strength over the evaluator model: STORE-EXTENSION INVARIANCE "
+    "text": "22 Coq theorems.  'No effect on values' at full strength over the evaluator model: STORE-EXTENSION INVARIANCE "
             "(a simulation over every expression form, FunctionDef::call and every depth: evaluating from a store related "
             "by an injective renaming of function-cell indices gives the renamed outcome, scope chain and a related store; "
             "generic in operators/built-ins that commute with renamings, discharged arm by arm for the transcribed "
@@ -28,7 +28,10 @@ MANIFEST = {
             "names) and the head-context let-abstraction are also theorems about the evaluator the EVAL streams run (the "
             "*_full / *_fullbi theorems); and C02_pure_builtins_blind_to_cells: each of the 32 pure arms of builtin_full "
             "maps argument vectors that are equal after erasing cell indices (incl. [f, f] vs [f, f'] — no renaming relates "
-            "those) to outcomes equal up to cell indices, i.e. no built-in compares functions by identity.  "
+            "those) to outcomes equal up to cell indices, i.e. no built-in compares functions by identity; the "
+            "classification of the arms these proofs rest on (which arms apply Value::equals / Value::compare, which call a "
+            "function value) is proved equal to a table regenerated on every run from the SOURCE TEXT of "
+            "BuiltInFunction::call (coq/gen/ArmObservers.v; C02_arm_observers_match_source, C02_other_arms_ignore_callback).  "
             "Older theorems: purity of the scope chain, existing bindings untouched, store only grows.  "
             "PARTIAL by nature: determinism across processes, hash seeds and earlier evaluations is a property of the "
             "running code that no Gallina function can fail; it is decided by running the same generated programs in "
